@@ -36,6 +36,7 @@ type Scenario struct {
 	Skew    []time.Duration  `json:"skew"`    // per node clock skew (nil = none)
 	TxAt    map[string][]int `json:"tx_at"`   // catalogue tx name -> nodes whose mempool holds it before the services start
 	Pad     int              `json:"pad"`     // empty blocks added to every ledger before the services start (slides the primary)
+	Server  []int            `json:"server,omitempty"` // nodes whose service talks to a real network.Server for transaction requests (ext_c19_server.go)
 }
 
 // Event kinds.
@@ -128,6 +129,7 @@ type NodeRT struct {
 	Dead      bool            // the service logged a fatal error
 	Delivered map[int]int     // payload id -> deliveries
 	Wanted    map[string]bool // transaction hashes the service asked for
+	Srv       *ServerRT       // server mode (ext_c19_server.go); nil: the Wanted model stands in for the server
 	w         *World
 }
 
@@ -254,6 +256,12 @@ func NewWorld(s *Setup, sc Scenario) (w *World, err error) {
 			skew = sc.Skew[i]
 		}
 		w.Nodes[i] = &NodeRT{Idx: i, C: c, Timer: newTimer(skew), Delivered: map[int]int{}, Wanted: map[string]bool{}, w: w}
+		if sc.serverAt(i) {
+			if e := w.Nodes[i].newServer(); e != nil {
+				w.Close()
+				return nil, fmt.Errorf("node %d: network server: %w", i, e)
+			}
+		}
 	}
 	// initial mempool contents (they differ between nodes)
 	names := make([]string, 0, len(sc.TxAt))
@@ -309,6 +317,9 @@ func NewWorld(s *Setup, sc Scenario) (w *World, err error) {
 			return nil, errors.New("VerifSetTimer refused the service")
 		}
 		n.Svc = svc
+		if n.Srv != nil {
+			n.Srv.attach(svc)
+		}
 	}
 	for i, n := range w.Nodes {
 		w.cur = i
@@ -328,6 +339,9 @@ func (w *World) Close() {
 		}
 		if n.Svc != nil && !n.Dead {
 			n.Svc.Shutdown()
+		}
+		if n.Srv != nil {
+			n.Srv.stop()
 		}
 		if n.C != nil {
 			n.C.Close()
@@ -437,6 +451,9 @@ func (w *World) onBroadcast(n *NodeRT, ep *npayload.Extensible) {
 }
 
 func (w *World) onRequestTx(n *NodeRT, hs []util.Uint256) {
+	if n.Srv != nil {
+		n.Srv.requestTx(hs) // the real Server gets the very slice dBFT passed
+	}
 	w.mu.Lock()
 	defer w.mu.Unlock()
 	n.Wanted = map[string]bool{}
@@ -461,6 +478,9 @@ func (w *World) onRequestTx(n *NodeRT, hs []util.Uint256) {
 }
 
 func (w *World) onStopTxFlow(n *NodeRT) {
+	if n.Srv != nil {
+		n.Srv.stopTxFlow()
+	}
 	w.mu.Lock()
 	n.Wanted = map[string]bool{}
 	w.mu.Unlock()
@@ -739,6 +759,10 @@ func (w *World) Apply(e Event) error {
 		if err != nil {
 			return err
 		}
+		if n.Srv != nil { // server mode: the real Server decides
+			w.srvDeliver(n, e.T, tx)
+			break
+		}
 		// What network.Server does with an incoming transaction: the consensus
 		// callback first if the service asked for this hash, then the mempool.
 		w.mu.Lock()
@@ -828,7 +852,7 @@ type Problem struct {
 // acceptability of every submitted block (witness + round trip) for every
 // node that has the preceding block, fatal logs.
 func (w *World) CheckSafety() []Problem {
-	var ps []Problem
+	ps := w.srvProblems()
 	for _, f := range w.Fatals {
 		ps = append(ps, Problem{"fatal", f})
 	}
